@@ -168,6 +168,11 @@ mod imp {
                 out.push((t.clone(), s));
             }
         }
+        for t in pair_alphabet_trees() {
+            for s in pair_strategies(&t) {
+                out.push((t.clone(), s));
+            }
+        }
         out
     }
 
